@@ -1302,23 +1302,24 @@ func runC09(p *core.Prog, r *core.Result) {
 		if !ok || !core.IsField(st.Addr, pkgRunner, "gate", "capacity") {
 			return
 		}
-		ok = p.FactsAt(st).Find(func(cond ssa.Value, val bool) bool {
-			b, okb := cond.(*ssa.BinOp)
+		ok = false
+		// (the test may be a named predicate of the gate: for g.full() { ... })
+		for _, xf := range xfacts(p, st) {
+			b, okb := xf.Cond.(*ssa.BinOp)
 			if !okb || !core.LoadOfField(b.X, pkgRunner, "gate", "capacity") {
-				return false
+				continue
 			}
 			k, okc := core.ConstInt(b.Y)
 			if !okc || k != 0 {
-				return false
+				continue
 			}
 			switch b.Op {
 			case token.EQL, token.LEQ:
-				return !val
+				ok = ok || !xf.Val
 			case token.NEQ, token.GTR:
-				return val
+				ok = ok || xf.Val
 			}
-			return false
-		})
+		}
 		r.Check(ok, "R9.2", "runner.(*gate).enter#decrement-after-nonzero", p.InstrPos(st), "the slot is taken only on the edge where capacity was tested non-zero", "the slot is taken without capacity having been tested non-zero: more targets than the limit can run")
 	})
 
@@ -1465,18 +1466,21 @@ func checkCycleErrorOrigin(p *core.Prog, r *core.Result, a *runnerAnchors, rule 
 				return
 			}
 			// on the true edge of dep == e.root
-			ok = p.FactsAt(in).Find(func(cond ssa.Value, val bool) bool {
-				b, okb := cond.(*ssa.BinOp)
+			ok = false
+			// (the identity test may be a named predicate: if e.isRoot(dep) { ... })
+			for _, xf := range xfacts(p, in) {
+				b, okb := xf.Cond.(*ssa.BinOp)
 				if !okb || (b.Op != token.EQL && b.Op != token.NEQ) {
-					return false
+					continue
 				}
-				isDep := func(v ssa.Value) bool { prm, ok := v.(*ssa.Parameter); return ok && prm == f.Params[1] }
+				isDep := func(v ssa.Value) bool { prm, ok := xf.Arg(v).(*ssa.Parameter); return ok && prm == f.Params[1] }
 				isRoot := func(v ssa.Value) bool { return core.LoadOfField(v, pkgRunner, "engine", "root") }
 				if (isDep(b.X) && isRoot(b.Y)) || (isDep(b.Y) && isRoot(b.X)) {
-					return (b.Op == token.EQL) == val
+					if (b.Op == token.EQL) == xf.Val {
+						ok = true
+					}
 				}
-				return false
-			})
+			}
 			r.Check(ok, rule, construct, p.InstrPos(in), "constructed only on the edge where the visited target is the engine's own root", "constructed without the visited target being the root: false cycle reports")
 		})
 	}
